@@ -662,6 +662,38 @@ def r16_pairing(idx, r):
     pairing_rule(idx, r, ["armi.settings"], 80)
 
 
+def r18_default_not_aliased_and_geometry_requirement(idx, r):
+    """(a) a setting's default and its value are two objects: no method of Setting binds one to the other without a copy - otherwise an
+    in-place edit of the value moves the default along, the setting looks unchanged and the short style drops it.  (b) a cross-section entry
+    needs a geometry unless it ONLY points to ready-made XS files: XSModelingOptions.validate is EVALUATED on the four combinations of
+    (xsFileLocation given?, fluxFileLocation given?): geometry is demanded for (no, no), (no, yes) and (yes, yes)."""
+    from ..minieval import MiniEval
+    st = idx.cls(SETTING)
+    n = 0
+    for name, f in sorted(st.methods.items()):
+        for s_ in iter_stores(f.node):
+            if s_.chain in ("self._default", "self._value") and s_.value is not None:
+                n += 1
+                other = "self._value" if s_.chain == "self._default" else "self._default"
+                r.require(norm(s_.value) not in (other, other.replace("_", "", 1).replace("self.", "self.")) and norm(s_.value) != other.replace("._", "."), f"Setting.{name}:{s_.attr}:not-bound-to-the-other-object", f, node=s_.stmt,
+                          msg=f"`{norm(s_.stmt)}` makes default and value ONE object: editing a list/dict value in place changes the default with it")
+    if n < 4:
+        raise AnchorMissing("Setting: stores of _default / _value")
+    g = idx.method("armi.physics.neutronics.crossSectionSettings.XSModelingOptions", "validate")
+    gate = [x for x in walk_local(g.node) if isinstance(x, ast.If) and "xsFileLocation" in norm(x.test) and "fluxFileLocation" in norm(x.test) and any(isinstance(y, ast.If) and "geometry" in norm(y.test) for y in x.body)]
+    if len(gate) != 1:
+        raise AnchorMissing("XSModelingOptions.validate: the geometry requirement")
+    bad = []
+    for xs in (None, ["ISOAA"]):
+        for fl in (None, "rzmflx"):
+            got = MiniEval._truth(MiniEval()._ev(gate[0].test, {"self.xsFileLocation": xs, "self.fluxFileLocation": fl}))
+            want = (xs is None) or (fl is not None)
+            if got != want:
+                bad.append((xs, fl, got))
+    r.require(not bad, "XSModelingOptions.validate:geometry-required-unless-only-xs-files", g, node=gate[0],
+              msg=f"(xsFileLocation, fluxFileLocation, geometry demanded) = {bad}: an entry that generates cross sections from a flux file is accepted without a geometry")
+
+
 def run(idx, chk):
     chk.explanation = (
         "C17: schema validation dominating the store in Setting.setValue and the frozen writers of Setting._value; the renamed name being the one "
@@ -699,3 +731,5 @@ def run(idx, chk):
                  necessary="style, path and settings object reach the writer in that order")
     chk.run_rule("R17.17", "the reader applies every value, null included; cumulative days increase strictly", lambda r: r17_null_is_a_value_and_strictly_increasing(idx, r), floor=2,
                  necessary="a written None reads back as None; an invalid history is refused on assignment and on reading alike")
+    chk.run_rule("R17.18", "default and value are never one object; a geometry is demanded unless only XS files are given (evaluated)", lambda r: r18_default_not_aliased_and_geometry_requirement(idx, r), floor=5,
+                 necessary="an edited value is off-default and written; an invalid entry is refused and the previous value kept")
